@@ -15,21 +15,42 @@ From SioV Require Import Base.GoSem Sio.Middleware Sio.MiddlewareProofs Sio.Midd
     Join goroutines started by their middlewares;
     [s], [ts] = namespace state and threads at that point. *)
 
-(** If a socket is visible in any way - listed in the namespace, member of its own room, flagged
-    connected, reached by some broadcast (any rooms / except), its connection handlers ran, CONNECT
-    was sent to the client, entered in the connection's tables - then every middleware of its chain
-    ran exactly once, in registration order, and every one accepted. *)
+(** Threads also carry the recovery branch of Namespace.add: [t_rec t = Some rooms] iff connection
+    state recovery is enabled and the adapter really restored the session named by the CONNECT's
+    pid/offset (anything else - recovery off, no pid, unknown / expired / made-up pid - is [None]),
+    and [t_usemw] = ServerConnectionStateRecovery.UseMiddlewares. *)
+
+(** If a socket that is NOT a restored session is visible in any way - listed in the namespace,
+    member of its own room, flagged connected, reached by some broadcast (any rooms / except), its
+    connection handlers ran, CONNECT was sent to the client, entered in the connection's tables -
+    then every middleware of its chain ran exactly once, in registration order, and every one
+    accepted.  (Asking for a recovery that the adapter does not grant changes nothing.) *)
 Theorem C12_connected_only_after_all_accept : forall ts0 sched s ts t,
   fresh ts0 -> run sched (init ts0) = (s, ts) -> In t ts ->
+  restored t = false ->
   visible s (t_sid t) ->
   mw_calls (t_sid t) (trace s) = seq 0 (length (t_chain t)) /\
   Forall (fun b => accepts b = true) (t_chain t).
 Proof. exact connected_only_after_all_accept. Qed.
 
+(** For ANY socket: connected (listed, flagged, reached by a broadcast, handlers ran, CONNECT sent,
+    in the connection's tables) implies that all middlewares accepted - or that it is a session the
+    adapter really restored while UseMiddlewares is off, the one case in which no middleware runs.
+    (A restored session is in the rooms of its previous life, its own room included, from its
+    creation on: that is what recovery is; hence [visible_core] here.) *)
+Theorem C12_connected_only_after_all_accept_or_restored : forall ts0 sched s ts t,
+  fresh ts0 -> run sched (init ts0) = (s, ts) -> In t ts ->
+  visible_core s (t_sid t) ->
+  (restored t = true /\ t_usemw t = false /\ mw_calls (t_sid t) (trace s) = []) \/
+  (mw_calls (t_sid t) (trace s) = seq 0 (length (t_chain t)) /\
+   Forall (fun b => accepts b = true) (t_chain t)).
+Proof. exact connected_only_after_all_accept_or_restored. Qed.
+
 (** In particular, while the chain is still running nothing of the socket is visible. *)
 Theorem C12_invisible_during_chain : forall ts0 sched s ts t i,
   fresh ts0 -> run sched (init ts0) = (s, ts) -> In t ts ->
-  t_pc t = PMw i -> ~ visible s (t_sid t).
+  t_pc t = PMw i ->
+  ~ visible_core s (t_sid t) /\ (restored t = false -> ~ visible s (t_sid t)).
 Proof. exact invisible_during_chain. Qed.
 
 (** The first rejection stops the chain: if middleware j is the first that rejects, the calls made
@@ -67,10 +88,10 @@ Theorem C12_rejected_leaves_nothing : forall ts0 sched s ts t r,
 Proof. exact rejected_leaves_nothing. Qed.
 
 (** Progress: from ANY state in which no Join goroutine holds the socket's joinMu, an admission
-    scheduled alone for (chain length + 8) steps has terminated, admitted or rejected; and a Join
+    scheduled alone for (chain length + 9) steps has terminated, admitted or rejected; and a Join
     goroutine that holds joinMu releases it with its next step ... *)
 Theorem C12_admission_completes : forall n s ts t, nth_error ts n = Some t -> held t = false ->
-  exists t', nth_error (snd (run (repeat (n, WMain) (length (t_chain t) + 8)) (s, ts))) n = Some t' /\
+  exists t', nth_error (snd (run (repeat (n, WMain) (length (t_chain t) + 9)) (s, ts))) n = Some t' /\
              (t_pc t' = PAdmitted \/ exists r, t_pc t' = PRejected r).
 Proof. exact admission_completes. Qed.
 
@@ -81,8 +102,9 @@ Proof. exact join_releases. Qed.
 (** ... and what the two outcomes mean, under every schedule. *)
 Theorem C12_admitted_state : forall ts0 sched s ts t,
   fresh ts0 -> run sched (init ts0) = (s, ts) -> In t ts -> t_pc t = PAdmitted ->
-  Forall (fun b => accepts b = true) (t_chain t) /\
-  mw_calls (t_sid t) (trace s) = seq 0 (length (t_chain t)) /\
+  ((restored t = true /\ t_usemw t = false /\ mw_calls (t_sid t) (trace s) = []) \/
+   (Forall (fun b => accepts b = true) (t_chain t) /\
+    mw_calls (t_sid t) (trace s) = seq 0 (length (t_chain t)))) /\
   packets (t_sid t) (trace s) = [PktConnect (t_sid t)] /\
   In (t_sid t) (store s) /\ In (t_sid t) (conn_flag s) /\
   In (t_sid t) (members (adp s) (ROwn (t_sid t))) /\
@@ -102,6 +124,7 @@ Proof. exact rejected_state. Qed.
     is connecting (this is what lets the live rig compare each connection with a solo model run). *)
 Theorem C12_chain_function_agrees : forall ts0 sched s ts t,
   fresh ts0 -> run sched (init ts0) = (s, ts) -> In t ts ->
+  skipped t = false ->
   t_pc t = PAdmitted \/ (exists r, t_pc t = PRejected r) ->
   mw_calls (t_sid t) (trace s) = fst (run_chain (t_chain t)) /\
   match snd (run_chain (t_chain t)) with
@@ -143,6 +166,18 @@ Theorem C12_model_async_satisfies_oracle_small : forall chain,
   In chain (chains_async_upto 2) -> oracle (obs_of chain) = true /\ agree (obs_of chain) = true.
 Proof. exact model_async_satisfies_oracle_small. Qed.
 
+(** ... and for restored sessions, with and without UseMiddlewares (chains of length <= 2). *)
+Theorem C12_model_rec_satisfies_oracle_small : forall chain usemw,
+  In chain (chains_upto 2) ->
+  oracle (obs_of_rec chain true usemw) = true /\ agree (obs_of_rec chain true usemw) = true.
+Proof. exact model_rec_satisfies_oracle_small. Qed.
+
+Theorem C12_observables_are_visible_core : forall s x,
+  listed s x = true \/ is_connected s x = true \/ reach_all s x = true \/
+  (exists r, reach_room s r x = true) ->
+  visible_core s x.
+Proof. exact observables_visible_core. Qed.
+
 (** The same for the event path: 3100 cases (0-2 handlers with/without ack parameter x every chain
     of <= 4 accepting/rejecting middlewares x client ack or not x 5 argument lists x decodable or
     not): the model's prediction satisfies the event oracle. *)
@@ -157,15 +192,16 @@ Proof. exact model_events_satisfy_oracle_small. Qed.
 Example C12_example :
   let a := mkMwb [[1]]%N Accept [[5]]%N in
   let r := mkMwb [[2; 3]]%N (Reject (RStr [7]%N)) [] in
-  let ts0 := [new_adm 10 1 [a; a]; new_adm 11 2 [a; r; a]; new_adm 12 3 []]%N in
+  let ts0 := [new_adm 10 1 [a; a]; new_adm 11 2 [a; r; a]; new_adm 12 3 [];
+              new_adm_rec 13 4 [r] (Some [9]) false; new_adm_rec 14 5 [r] (Some [9]) true]%N in
   let sched := flat_map (fun _ => [(0, WMain); (1, WMain); (1, WJoin 0); (2, WMain); (0, WHandler);
-                                   (2, WHandler); (0, WJoin 1)]%nat)
+                                   (2, WHandler); (0, WJoin 1); (3, WMain); (4, WMain)]%nat)
                         (seq 0 14) in
   let '(s, ts) := run sched (init ts0) in
   fresh ts0 /\
-  map t_pc ts = [PAdmitted; PRejected (RStr [7]%N); PAdmitted] /\
-  store s = [12; 10]%N /\
-  map fst (a_sids (adp s)) = [10; 12]%N /\
+  map t_pc ts = [PAdmitted; PRejected (RStr [7]%N); PAdmitted; PAdmitted; PRejected (RStr [7]%N)] /\
+  store s = [13; 12; 10]%N /\
+  mw_calls 13%N (trace s) = [] /\ mw_calls 14%N (trace s) = [0]%nat /\
   mw_calls 11%N (trace s) = [0; 1]%nat /\
   packets 11%N (trace s) = [PktConnectError (MText [7]%N)] /\
   map snd (flat_map t_js ts) = [JNew; JDone; JDone] /\
